@@ -475,7 +475,7 @@ def build(desc, names=None, sysname=None, hook=None):
                 b.ports_added.add(key)
                 contains_driver = anc in _chain(desc, dg)
                 o = gobj(anc)
-                pname = names.get('p_' + s, s)
+                pname = names.get('p_' + s, names.get(s, s))
                 if contains_driver:
                     o.addOut(pname, w)
                 else:
